@@ -43,7 +43,6 @@ def step (j : Json) : Option String := do
   let ck ← ints (← field cst "k")
   let cv ← ints (← field cst "v")
   let layout := s!"key@-{D.keyDepth} value@-{D.valDepth} K={D.K} V={D.V} koff={showNats (offsets 0 keyF)} voff={showNats (offsets 0 valF)}"
-  if !dictCallAssembles ((fBool j "own_r0").getD true) true then return layout ++ " load=asm-error"
   let (h0, lres) := hvStep vars [] .load
   let mut outs : List String := [layout ++ " load=" ++ showHOut lres]
   let mut m : KMap := []
